@@ -222,6 +222,20 @@ class Checker:
                             except Exception:
                                 continue
                             fp2 = snapshot.quantity_fingerprint(q2)
+                            if form in ("ObtainQuantity(dict)", "ObtainQuantity(list)"):
+                                # the same with one entry in a legacy spelling (the request is rewritten on the way in): the
+                                # *other* entries are still the caller's lists
+                                wl = OrderedDict([("volume", ["1000ft3", 2 + k_form]), ("time", ["s", -3 - k_form])])
+                                try:
+                                    ql = ObtainQuantity(wl) if form == "ObtainQuantity(dict)" else ObtainQuantity([v_ for v_ in wl.values()], list(wl))
+                                    fpl = snapshot.quantity_fingerprint(ql)
+                                    wl["time"][0], wl["time"][1] = "h", 2
+                                    wl["volume"][1] = 9
+                                    ctx.ev()
+                                    if snapshot.quantity_fingerprint(ql) != fpl:
+                                        ctx.violation("quantity-follows-the-callers-later-edits-of-the-map:%s (one entry in a legacy spelling)" % form, {"before": repr(fpl)[:300], "after": repr(snapshot.quantity_fingerprint(ql))[:300]}, replay={"history": hist[: i + 1]})
+                                except Exception as e:
+                                    ctx.violation("derived-request-with-a-legacy-entry-raised:%s" % type(e).__name__, {"form": form, "error": str(e)[:160]}, replay={"history": hist[: i + 1]})
                             for v in work.values():
                                 v[1] = 1
                                 v[0] = "s" if v[0] != "s" else "m"
@@ -374,6 +388,21 @@ def request_orders(ctx, r, n_orders):
                         ctx.violation("request-order:same-category-unit-caption-not-equal", {"a": list(ra), "b": list(rb), "qa": repr(qa), "qb": repr(qb)})
                     if not same and qa == qb:
                         ctx.violation("request-order:different-requests-equal", {"a": list(ra), "b": list(rb), "qa": repr(qa), "qb": repr(qb)})
+                # the category registered again for the same quantity type with another default unit: "the default unit of the
+                # category" is the new one from then on, for the unit-less request too
+                if db0.GetDefaultUnit(c0) == cur and got:
+                    qt_ = db.GetCategoryQuantityType(c0)
+                    other_u = next((w for w in db.GetUnits(qt_) if w != cur), None)
+                    if other_u is not None:
+                        ctx.ev()
+                        try:
+                            before_q = ObtainQuantity(None, c0)
+                            db.AddCategory(c0, qt_, override=True, default_unit=other_u)
+                            after_q, explicit = ObtainQuantity(None, c0), ObtainQuantity(other_u, c0)
+                            if after_q.GetUnit() != other_u or not (after_q == explicit and hash(after_q) == hash(explicit)) or ObtainQuantity(None, c0, "cap").GetUnit() != other_u:
+                                ctx.violation("request-order:unit-less-request-keeps-the-default-unit-of-the-overridden-definition", {"category": c0, "old_default": cur, "new_default": other_u, "got": repr(after_q), "before": repr(before_q)})
+                        except Exception as e:
+                            ctx.violation("request-order:override-raised:%s" % type(e).__name__, {"category": c0, "error": str(e)[:160]})
             ctx.count("request orders run")
 
 
